@@ -109,7 +109,10 @@ Proof.
 Qed.
 Lemma def_of_in : forall defs d, NoDup (map fst defs) -> In d defs -> def_of defs (fst d) = Some (snd d).
 Proof.
-  intros defs d Hnd Hin. unfold def_of. rewrite (find_unique (@fst uid (list event)) defs d Hnd Hin). reflexivity.
+  intros defs d Hnd Hin. unfold def_of.
+  match goal with |- context [find ?p ?l] =>
+    assert (E : find p l = Some d) by (exact (find_unique (@fst N (list event)) defs d Hnd Hin)); rewrite E end.
+  reflexivity.
 Qed.
 Lemma define_fst : forall defs r ev, map fst (define defs r ev) = map fst defs.
 Proof.
@@ -137,6 +140,13 @@ Proof.
   intros Hx. induction l as [|y t IH]; cbn [find app]; [rewrite Hx; discriminate|].
   destruct (p y); [discriminate | exact IH].
 Qed.
+Lemma tag_new_keeps : forall key defs now old new acc r,
+  find (fun x : uid * bool => N.eqb (fst x) r) acc <> None ->
+  find (fun x : uid * bool => N.eqb (fst x) r) (tag_new key defs now old new acc) <> None.
+Proof.
+  intros key defs now old. unfold tag_new. induction new as [|y new IH]; intros acc r H; cbn [fold_left]; [exact H|].
+  apply IH. destruct (memU y old); [exact H | apply find_app_some; exact H].
+Qed.
 Lemma tag_new_covers : forall key defs now old new gh,
   covers gh old -> covers (tag_new key defs now old new gh) new /\ covers (tag_new key defs now old new gh) old.
 Proof.
@@ -150,21 +160,19 @@ Proof.
     { unfold gh1. destruct (memU x old) eqn:E; [apply Hc; apply memU_In; exact E|]. apply find_app_last. cbn [fst]. apply N.eqb_refl. }
     destruct (IH gh1 Hc1) as [H1 H2]. split; [|exact H2].
     intros r [Hr|Hr]; [|apply H1; exact Hr]. subst r.
-    (* what is found in gh1 is still found after more is appended *)
-    clear -Hx. revert gh1 Hx. induction new as [|y new IHn]; intros gh1 Hx; cbn [fold_left]; [exact Hx|].
-    apply IHn. destruct (memU y old); [exact Hx | apply find_app_some; exact Hx].
+    exact (tag_new_keeps key defs now old new gh1 x Hx).
 Qed.
 
 Lemma addU_In : forall x l y, In y (addU x l) <-> y = x \/ In y l.
 Proof.
   intros x l y. unfold addU. destruct (memU x l) eqn:E.
   - apply memU_In in E. split; [right; auto | intros [H|H]; subst; auto].
-  - rewrite in_app_iff. cbn [In]. tauto.
+  - rewrite in_app_iff. cbn [In]. intuition congruence.
 Qed.
 Lemma fold_addU_In : forall l acc y, In y (fold_left (fun a r => addU r a) l acc) <-> In y l \/ In y acc.
 Proof.
-  induction l as [|x l IH]; intros acc y; cbn [fold_left]; [tauto|].
-  rewrite IH, addU_In. cbn [In]. intuition.
+  induction l as [|x l IH]; intros acc y; cbn [fold_left]; [cbn [In]; tauto|].
+  rewrite IH, addU_In. cbn [In]. intuition congruence.
 Qed.
 
 Definition no12 (l : list Z) : Prop := existsb (Z.eqb 1) l = false /\ existsb (Z.eqb 2) l = false.
@@ -190,7 +198,7 @@ Proof.
   split; [exact Hb|]. cbn [stale_class] in Hno. rewrite Hq in Hno. rewrite (oi_bound _ _ _ _ HI), Hb, (oi_defs _ _ _ _ HI) in Hno. cbn [andb] in Hno.
   destruct (room_valid_now defs r key now); [reflexivity|]. cbn [negb] in Hno.
   pose proof (oi_cov _ _ _ _ HI r Hin) as Hc.
-  destruct (find (fun x : uid * bool => N.eqb (fst x) r) gh) as [[r0 [|]]|]; [| |congruence]; destruct Hno as [H1 H2]; cbn in H1, H2; discriminate.
+  destruct (find (fun x : uid * bool => N.eqb (fst x) r) gh) as [[r0 [|]]|]; [| |congruence]; destruct Hno as [H1 H2]; cbn in H1, H2; first [discriminate H1 | discriminate H2].
 Qed.
 Lemma valid_member : forall defs r key now, room_valid_now defs r key now = true -> member_now defs r key now = true.
 Proof.
